@@ -43,6 +43,13 @@ fn same_sequence(a: &[Answer], b: &[Answer], u: &canon::Universe) -> Option<usiz
         if canon::equiv(x, y, u) == Cmp::Different {
             return Some(i);
         }
+        // equivalent as sets of ground instances, but the reported constraint *sets* must also
+        // agree up to order: a redundant constraint present in one run only is a difference
+        if let (Ok(cx), Ok(cy)) = (canon::normal_cons(x), canon::normal_cons(y)) {
+            if cx.len() != cy.len() {
+                return Some(i);
+            }
+        }
     }
     None
 }
